@@ -22,8 +22,10 @@ def showRead (r : Except ParseErr Header) : String :=
 
 /-! ### `run`: one message through the queue under a history of attempts and restarts
 
-`C10 run <hist> <hdr> <body> S=.. J=<i:j.i:j|-> from=<i> to=<i.i> orc=<i:j.i:j|-> f=<utf8 rtls tro quar dts> auth=<0|1|2> late=<0|1> dsn=<0|1|2> X=<i.i|-> peer=<-|i.i/hist>`
+`C10 run <hist> <hdr> <body> S=.. J=<i:j.i:j|-> from=<i> to=<i.i> orc=<i:j.i:j|-> f=<utf8 rtls tro quar dts> auth=<0|1|2> late=<0|1> dsn=<0|1|2> X=<i.i|-> peer=<-|i.i/hist> pre=<-|h,b,m>`
 
+* pre: leftover files of the message's own names in the spool directory when it is stored (`parsePre`);
+  the output starts with the spool's header and body file right after acceptance (`st[hdr=<len>.<digest> body=<len>.<digest>]`);
 * dsn: 0 = no bounce pipeline, 1 = a bounce pipeline, 2 = one that refuses the report at the body stage (the
   same for the queue); X: the strings for which `address.SelectIDNA <the message's SMTPUTF8 flag>` fails;
 * peer: a SECOND queue fed by the same source with the same header, body and metadata, its own recipients
@@ -153,7 +155,7 @@ def showEv : Ev → Option String
 def allVisible : Vis := fun _ => true
 
 /-- one queue: history `hist` for recipients `to` of the accepted message -/
-def runOne (co : Nat → Nat) (h : Header) (b : Bytes) (mm : MsgMeta) (sender : Nat) (to : List Nat)
+def runOne (co : Nat → Nat) (pre : Leftovers) (h : Header) (b : Bytes) (mm : MsgMeta) (sender : Nat) (to : List Nat)
     (bounce : Bool) (unrep : List Nat) (hist : String) : Option String := do
   -- `R` (first step only): restart after `Commit` was answered by a queue that was already stopping
   -- (nothing dispatched, the message is in the spool only) - for the spool the same as `r`
@@ -164,19 +166,45 @@ def runOne (co : Nat → Nat) (h : Header) (b : Bytes) (mm : MsgMeta) (sender : 
       | [] => l
   let steps ← hsteps.mapM (parseStep to bounce unrep)
   let a : Accepted := { hdr := h, body := b, qmeta := { msgMeta := mm, sender := sender, to := to } }
-  let (st, evs) := run allVisible co a steps
+  let (st, evs) := runOver allVisible co pre a steps
+  -- the spool files right after acceptance
+  let stored := match (acceptOver allVisible co pre a).1.disk with
+    | some d => s!"st[hdr={d.hdrFile.length}.{digest d.hdrFile} body={d.bodyFile.getD 0 0}.{d.bodyFile.getD 1 0}]"
+    | none => "st[?]"
   let broken := evs.filterMap fun e => match e with | .broke d => some d | _ => none
   let fin := match st.disk, broken with
     | none, [] => "end=removed"
     | none, d :: _ => s!"end=broken:{showIdxs d.to}"
     | some d, _ => s!"end=pending:{showIdxs d.metaFile.to}"
   let leak := if (docs evs).all (fun d => (secretsOf d).isEmpty) then "0" else "1"
-  pure (" ".intercalate (evs.filterMap showEv ++ [fin, s!"leak={leak}"]))
+  pure (" ".intercalate (stored :: evs.filterMap showEv ++ [fin, s!"leak={leak}"]))
+
+/-- `pre=<h>,<b>,<m>`: files `<id>.header` / `<id>.body` / `<id>.meta.new` lying in the spool directory
+when the message is stored: `x` = none, else (header, body) the signed difference between the length of
+the leftover and the length of what is stored, (meta.new) the absolute length.  The bytes of a leftover
+are not on the op line (a body is represented by [len, digest] anyway): stand-ins of the given size. -/
+def parsePre (s : String) (hdrLen bodyLen : Nat) : Option Leftovers :=
+  if s == "-" then some noLeftovers else
+  let one (spec : String) (n : Nat) : Option (Option Bytes) :=
+    if spec == "x" then some none else
+    match spec.toInt? with
+    | some d => some (some (List.replicate ((Int.ofNat n + d).toNat) 115))
+    | none => none
+  match s.splitOn "," with
+  | [h, b, m] => do
+    guard ((h == "x" || h.startsWith "+" || h.startsWith "-") && (b == "x" || b.startsWith "+" || b.startsWith "-"))
+    let lh ← one (if h.startsWith "+" then (h.drop 1).toString else h) hdrLen
+    let lb ← one (if b.startsWith "+" then (b.drop 1).toString else b) (min bodyLen 4096)
+    let lm ← one m 0
+    pure ⟨lh, lb, lm⟩
+  | _ => none
 
 def handleRun (hist hdr body : String) (rest0 : List String) : Option String := do
   -- op lines recorded before the bounce pipeline / second queue were added: no bounce pipeline, one queue
-  let rest := if rest0.length == 8 then rest0 ++ ["dsn=0", "X=-", "peer=-"] else rest0
-  let [sS, sJ, sFrom, sTo, sOrc, sF, sAuth, _sLate, sDsn, sX, sPeer] := rest | none
+  let rest1 := if rest0.length == 8 then rest0 ++ ["dsn=0", "X=-", "peer=-"] else rest0
+  -- ... before leftover files of the message's own names were added
+  let rest := if rest1.length == 11 then rest1 ++ ["pre=-"] else rest1
+  let [sS, sJ, sFrom, sTo, sOrc, sF, sAuth, _sLate, sDsn, sX, sPeer, sPre] := rest | none
   let _ ← kv "S" sS
   let jt ← parsePairs (← kv "J" sJ)
   let co (x : Nat) : Nat := match jt.find? (fun p => p.1 == x) with | some p => p.2 | none => x
@@ -195,12 +223,13 @@ def handleRun (hist hdr body : String) (rest0 : List String) : Option String := 
   let b ← parseBody body
   let conn : Option Conn := if auth == 0 then none else if auth == 1 then some ⟨0, 0⟩ else some ⟨1000001, 1000002⟩
   let mm : MsgMeta := ⟨1000000, sender, fb 4, fb 3, orc, fb 0, fb 1, conn, fb 2⟩
-  let obsA ← runOne co h b mm sender to (dsn != 0) unrep hist
+  let pre ← parsePre (← kv "pre" sPre) (writeHeader h).length (b.getD 0 0)
+  let obsA ← runOne co pre h b mm sender to (dsn != 0) unrep hist
   if peer == "-" then pure obsA else
   match peer.splitOn "/" with
   | [pTo, pHist] => do
     let toB ← parseIdxs pTo
-    let obsB ← runOne co h b mm sender toB (dsn != 0) unrep pHist
+    let obsB ← runOne co pre h b mm sender toB (dsn != 0) unrep pHist
     pure (obsA ++ " || " ++ obsB)
   | _ => none
 
